@@ -22,6 +22,7 @@ from harness.util import vec, stack, first_failures
 
 ID = 'C05'
 LEVEL = 'proof'
+PROPERTY_MODULES = ['PanqecVerif.Properties.C05', 'PanqecVerif.Properties.C05UnionFind']
 LEVEL_TEXT = ('Lean theorems for every CSS parity-check matrix (pure-X / pure-Z rows, any size), every error and '
               'every weight vector: under the stated solver contracts the corrections assembled by MatchingDecoder, '
               'UnionFindDecoder and BeliefPropagationOSDDecoder (CSS split; non-CSS full matrix with the halves '
@@ -29,10 +30,26 @@ LEVEL_TEXT = ('Lean theorems for every CSS parity-check matrix (pure-X / pure-Z 
               'is in the code space; zero syndrome gives zero correction for matching (minimum-weight contract, '
               'positive weights); which matrix / sector syndrome / weights / output half go together is part of '
               'the proved model, which is tied to the code on every run by boundary spies that replay the model '
-              'glue on the recorded solver answers.')
+              'glue on the recorded solver answers. The INTERNALS of the union-find decoder (uf_support.py: cluster '
+              'growth by half-edges, find_root with path compression, merge_clusters, _update_parents, the '
+              'breadth-first spanning tree, peeling, the correction vector) are modelled executably '
+              '(Model/UnionFind.lean) and compared with the running implementation step by step on every run; for '
+              'every graph-like matrix (0/1, columns of weight <= 2, no parallel edges), every syndrome and every '
+              'iteration order of the Python sets it is proved that _build_tree returns a spanning tree of every '
+              'connected cluster, that peeling a spanning tree with an even number of defects returns qubits whose '
+              'boundary is exactly the defect set, that whenever the growth loop terminates every cluster is '
+              'connected and even, and hence that Support.decode() returns a binary length-n vector with exactly '
+              'the given syndrome (partial correctness: termination of the growth loop is tested, not proved); the '
+              'model is proved to FAIL on Toric2DCode(2,2) (parallel edges) exactly as the implementation does.')
 LEVEL_NOTE = ('trusted (modelled, not verified): PyMatching Matching.decode (returns a minimum-weight solution of '
-              'H c = s), ldpc BpOsdDecoder.decode (return value solves H c = s for s in im H), uf_support.Support '
-              '(returns a solution of H c = s); each contract is tested on every run by the spy. Tested only, not '
+              'H c = s), ldpc BpOsdDecoder.decode (return value solves H c = s for s in im H); each contract is '
+              'tested on every run by the spy. uf_support.Support is no longer a black box: its internals are '
+              'modelled + tied by a step-granular correspondence (growth states, parent arrays incl. path '
+              'compression, cluster records, spanning trees, peeling rounds, correction) + proved partially correct '
+              'for graph-like matrices; NOT proved: termination of Support.clustering (false on matrices with '
+              'columns of weight 1 when a component carries an odd number of defects: the real code loops for ever, '
+              'observed and compared); CPython set iteration order is not modelled: recorded from the run and fed '
+              'to the model, which validates it; theorems hold for every order. Tested only, not '
               'proved: constructibility of every (decoder, allowed code) pair; "returns a binary length-2n vector '
               'without raising" for the incomplete decoders (sweep-match, MBP, XCube matching), whose internals '
               'are modelled by interface only (sweep automata: C10).')
@@ -42,11 +59,17 @@ TRUSTED = ['PyMatching Matching(H, spacelike_weights=w).decode(s): minimum-weigh
            '(contract hypothesis; tested against the full coset in C09)',
            'ldpc BpOsdDecoder.decode(s): returned vector solves H c = s whenever s is in the image of H; it is a '
            'function of (matrix, channel probabilities, syndrome) (contract hypothesis; tested by the spy)',
-           'panqec uf_support.Support(s, H).decode(): solves H c = s on the toric code (contract hypothesis; tested)',
+           'panqec uf_support.Support(s, H).decode(): in Properties/C05 still a contract hypothesis of the glue '
+           'theorem (solves H c = s); discharged for the Lean model of the internals up to termination of the '
+           'growth loop by Properties/C05UnionFind (graph-like matrices, every set iteration order); model tied to '
+           'the implementation by a step-granular correspondence on every run; numpy/scipy semantics of the '
+           'matrix operations used by uf_support.py (boolean-mask assignment on csr matrices, np.where order, '
+           'np.unique, uint8 product H @ H.T) as transcribed',
            'SweepDecoder3D / RotatedSweepDecoder3D .decode return a Z-only vector of length 2n (black box here; C10)']
 ASSUMPTIONS = ['syndromes are syndromes of Pauli errors (s = H e); parity-check entries are 0/1',
                'per-qubit marginals px+py, pz+py lie in (0, 1/2) for the zero-syndrome claim (positive weights)']
 ANCHOR_FILES = ['panqec/decoders/matching/_matching_decoder.py', 'panqec/decoders/union_find/uf_decoder.py',
+                'panqec/decoders/union_find/uf_support.py',
                 'panqec/decoders/belief_propagation/bposd_decoder.py',
                 'panqec/decoders/sweepmatch/_sweep_match_decoder.py',
                 'panqec/decoders/sweepmatch/_rotated_sweep_match_decoder.py',
